@@ -20,6 +20,7 @@ C(p, i) == (p * 8 + i) % 1000003                              \* i-th child of c
 
 \* the inventory of literal segments the generator uses (ids into Base); q and x are reserved for planting
 Lits == <<Ascii.a, Ascii.e, Ascii.i, Ascii.o, Ascii.u, Ascii.p, Ascii.t, Ascii.k, Ascii.b, Ascii.d, Ascii.s, Ascii.z, Ascii.m, Ascii.n, Ascii.l, Ascii.r, Ascii.j, Ascii.w, Ascii.h>>
+        \o ExtraLits       \* cardinals spelled with characters that have inbuilt input aliases (g ? ! schwa phi), incl. multi-character graphemes
 FeatPool == <<1, 2, 3, 4, 5, 7, 9, 12, 13, 16, 17, 19, 20, 21, 22, 25, 26>>          \* features used in generated matrices
 SupraNames == <<"long", "overlong", "stress", "sec.stress">>
 
